@@ -179,6 +179,32 @@ def p_center_of_mass():
     return _out(m.center_of_mass().array)
 
 
+def p_waves_transforms_then_reuse():
+    """Every measurement transform of a Waves object is followed by a second use of the SAME object: a backend that transforms in
+    place behind the scenes shows up in the later results (and in the snapshot of the receiver's array)."""
+    import abtem
+    w = abtem.Probe(energy=100e3, semiangle_cutoff=24.0, gpts=(24, 20), extent=(6.0, 5.0), defocus=30.0).build(
+        scan=abtem.CustomScan(np.array([[1.0, 1.0], [2.5, 3.0]])), lazy=False)
+    before = np.asarray(w.array).copy()
+    outs = [w.downsample(max_angle="cutoff").array, w.diffraction_patterns(max_angle="valid").array,
+            w.apply_ctf(abtem.CTF(defocus=15.0, semiangle_cutoff=20.0)).array, w.intensity().array,
+            w.downsample(gpts=(12, 10)).array, w.diffraction_patterns(max_angle="cutoff").array]
+    changed = not np.array_equal(before, np.asarray(w.array))
+    return _out(np.concatenate([np.ravel(np.asarray(o)).astype(np.complex128) for o in outs]), changed)
+
+
+def p_images_transforms_then_reuse():
+    import abtem
+    from abtem.core.utils import get_dtype
+    a = (_rng_array((2, 14, 12), seed=3)).astype(get_dtype(complex=True))
+    img = abtem.Images(a, sampling=(0.2, 0.25), ensemble_axes_metadata=[abtem.core.axes.OrdinalAxis(values=(0, 1))])
+    before = a.copy()
+    outs = [img.interpolate(gpts=(21, 18), method="fft").array, img.gaussian_filter(0.3).array, img.interpolate(sampling=0.1, method="fft").array,
+            img.diffractograms().array if hasattr(img, "diffractograms") else img.array, img.abs().array]
+    changed = not np.array_equal(before, np.asarray(img.array))
+    return _out(np.concatenate([np.ravel(np.asarray(o)).astype(np.complex128) for o in outs]), changed)
+
+
 PIPES = {
     "probe_scan_annular": p_probe_scan_annular,
     "probe_scan_flexible_lazy": p_probe_scan_flexible_lazy,
@@ -197,6 +223,8 @@ PIPES = {
     "propagate_vacuum": p_propagate_vacuum,
     "realspace_multislice": p_realspace_multislice,
     "center_of_mass": p_center_of_mass,
+    "waves_transforms_then_reuse": p_waves_transforms_then_reuse,
+    "images_transforms_then_reuse": p_images_transforms_then_reuse,
 }
 
 
